@@ -4,6 +4,7 @@ CONSTANTS
   MaxCalls = 4
   GEN = TRUE
   Rich = FALSE
+  MaxDev = 1
 INVARIANT MCInv
 INVARIANT Emit
 CHECK_DEADLOCK FALSE
